@@ -103,12 +103,15 @@ def addStatus (r : Results) (s : Status) : Results :=
     | some ds' => { r with deltas := some ds' }
     | none => { r with deltas := some (ds ++ [{ uri := u, codes := ({} : Codes).add s }]) }
 
-/-- Legacy fallback of `Reader::validation_state` (no results object). -/
+/-- Legacy fallback of `Reader::validation_state` (no results object). The listed statuses are
+the failures of the old report. (Follows the repaired code, fixes/C04-legacy-untrusted-not-trusted.patch:
+`else if verify_trust && status.is_empty()`; before the repair a list holding only
+`signingCredential.untrusted` gave Trusted when trust was verified.) -/
 def legacyState (verifyTrust : Bool) (status : Option (List Code)) : State :=
   match status with
   | some st =>
     if st.any (· != cUntrusted) then .invalid
-    else if verifyTrust then .trusted else .valid
+    else if verifyTrust && st.isEmpty then .trusted else .valid
   | none => if verifyTrust then .trusted else .valid
 
 /-! ### line protocol -/
